@@ -1,13 +1,13 @@
 PROP = "C19"
 LEVEL = "exploration"
 ENGINE = "pyvc+bounded"
-HARNESS_MODULES = ["contracts.c19_generator"]
+HARNESS_MODULES = ["contracts.c19_generator", "contracts.c19_builders"]
 RULE = "native tier: contracts on the real PRNG functions over listed seeds/domains/draw scripts; bounded engine: see coverage"
 TRUSTED = ["pyvc model of Python ints and of bit operations on width-tracked non-negative ints (128-bit vectors)",
            "idealisation: XorShift.next() is uniform on [0, 2^32) (justified by the proved injectivity of the state step)",
            "float(x)/2**32 treated as the exact rational", "z3"]
 ASSUMPTIONS = ["termination of rejection sampling is almost sure, not claimed"]
-TECHNIQUE = "pyvc contracts (proved) for the PRNG, srandom routing and generate_problem's return discipline; bounded enumeration for builder neighbourhoods and reruns"
+TECHNIQUE = "pyvc contracts (proved) for the PRNG, srandom routing, generate_problem's return discipline and the builders (ArrayBuilder2D.candidates: positions on the board, values from the choice set, point symmetry of the support, adjacency option; copy_with_update: deep copy + exactly the listed writes, input never written; Choice); bounded enumeration for build_neighbor_generator, builder histories and reruns"
 LEVEL_TEXT = "exploration overall: PRNG ranges/uniformity arithmetic, routing and the return discipline are proved without bound; builder symmetry/adjacency and end-to-end reproducibility are bounded"
 LEVEL_NOTE = "trusted: pyvc's Python model, z3, the uniformity idealisation of next()"
 
